@@ -9,7 +9,7 @@ EXTENDS Ast, TLC, Json, IOUtils
 CONSTANT MaxLen
 
 OV == {"x", "y", "z"}
-Ops == [op : {"new", "inc", "add", "total", "twice", "readn", "writen", "opn", "pushitems", "bumpvia", "setb", "inlist"}, v : OV]
+Ops == [op : {"new", "inc", "add", "total", "twice", "readn", "writen", "opn", "pushitems", "bumpvia", "setb", "inlist", "unwrap_reassign"}, v : OV]
        \cup [op : {"alias", "fork", "me", "is", "adopt"}, v : OV, w : OV]
        \cup [op : {"pair_bump_a", "pair_read_b", "pair_b_inc", "outside"}]
 
@@ -53,6 +53,7 @@ ObsOne(v) == <<Print(Fld(V(v), "n")), Print(Fld(V(v), "items"))>>
 Observe == ObsOne("x") \o ObsOne("y") \o ObsOne("z")
            \o <<Print(Bin("is", V("x"), V("y"))), Print(Bin("is", V("x"), V("z"))), Print(Bin("is", V("y"), V("z"))),
                 Print(Fld(Fld(V("p"), "a"), "n")), Print(MCall(V("p"), "has_b", <<>>)),
+                If(MCall(V("p"), "has_b", <<>>), <<Let("pbo", Get(Fld(V("p"), "b"))), Print(Bin("is", V("pbo"), V("x"))), Print(Bin("is", V("pbo"), V("y")))>>),
                 Print(MCall(V("ls"), "len", <<>>)), Print(V("made"))>>
 
 Stmts(o, k) ==
@@ -69,6 +70,11 @@ Stmts(o, k) ==
       [] o.op = "setb" -> <<ExprS(MCall(V("p"), "set_b", <<V(o.v)>>))>>
       [] o.op = "inlist" -> <<ExprS(MCall(V("ls"), "push", <<V(o.v)>>)), Let("li", Bin("-", MCall(V("ls"), "len", <<>>), I(1))),
                               Let("got", Idx(V("ls"), V("li"))), Print(MCall(V("got"), "inc", <<>>))>>
+      \* unwrap the optional field into a local, then re-point the local: the field must not follow
+      [] o.op = "unwrap_reassign" -> LET cur == "cur" \o ToString(k) IN
+                                     <<LetT(cur, "Counter?", Nil),
+                                       IfElse(UnwrapInto(cur, Fld(V("p"), "b")), <<Print(S("has"))>>, <<Print(S("none"))>>),
+                                       Let(cur, V(o.v))>>
       [] o.op = "alias" -> <<Let(o.v, V(o.w))>>
       [] o.op = "fork" -> <<Let(o.v, MCall(V(o.w), "fork", <<>>))>>
       [] o.op = "me" -> <<Let(o.v, MCall(V(o.w), "me", <<>>))>>
